@@ -607,7 +607,7 @@ func (e *Env) call(x *ECall) Val {
 				k := e.coerce(e.eval(x.Args[1]), Val{T: T(c.sortOf(mt.Key()), ""), GT: mt.Key()})
 				has, _, _ := c.mapComps(mt)
 				inner := app(elemOfArr(c.compSort[has]), "select", c.get(e.st, has), m.T)
-				return Val{T: tSelect(inner, k.T, SBool), GT: boolT}
+				return Val{T: tAnd(tNot(tEq(m.T, intLit(0))), tSelect(inner, k.T, SBool)), GT: boolT}
 			}
 		}
 		efail("has() on non-map")
@@ -654,6 +654,13 @@ func (e *Env) call(x *ECall) Val {
 			efail("upd sorts: key %s/%s value %s/%s", k.T.Sort, ks, v.T.Sort, vs)
 		}
 		return Val{T: tStore(a.T, k.T, v.T)}
+	case "arr":
+		// identity of the backing array of a slice
+		v := e.eval(x.Args[0])
+		if v.T.Sort != SSlice {
+			efail("arr() of non-slice")
+		}
+		return Val{T: app(SInt, "sl_arr", v.T)}
 	case "zero":
 		gt, _ := e.resolveTypeText(x.Args[0].String())
 		if gt == nil {
